@@ -536,6 +536,7 @@ def run(tier):
     rule_R12(res, prog)
     rule_R13(res, prog)
     rule_R14(res, prog)
+    rule_R15(res, prog)
     return res.finish()
 
 
@@ -1096,3 +1097,53 @@ def rule_R14(res, prog):
                                          file=fn.relfile, line=ln)
                         res.instance(rid, "tls13ParsePreSharedKey:%s selection re-arms the early-secret derivation" % ln, esc is None, finding=f_)
     res.floor(rid, 4)
+
+
+def rule_R15(res, prog):
+    """RFC 8446 4.1.3 and version fallback: a client that offers TLS 1.3 and 1.2 parses the ServerHello with the TLS 1.3 parser
+    first and hands it to the legacy parser when the server chose TLS 1.2.  Until then ssl->sessionId must still hold what
+    the CLIENT sent - the legacy parser decides `resumed or not` by comparing it with the server's session id.  (a) the
+    TLS 1.3 ServerHello parser never writes ssl->sessionId; (b) its success return (TLS 1.3 negotiated) is reached only
+    behind the comparison of the echo with what was sent."""
+    from sa import cfgutil as cu
+    rid = "C10.R15"
+    res.rule(rid, "TLS 1.3 ServerHello parser keeps the client's session id (legacy fallback compares against it) and checks the echo")
+    lst = prog.by_name.get("tls13ParseServerHello")
+    if not lst:
+        if prog.defined("USE_TLS_1_3"):
+            raise AnalysisBroken("C10.R15: tls13ParseServerHello vanished")
+        res.floor(rid, 0)
+        return
+    fn = lst[0]
+    bad = None
+    for b, ln, c in fn.calls():
+        for a in c.get("a", []):
+            a0 = strip(a)
+            while a0 is not None and a0.get("k") == "cast":
+                a0 = strip(a0["e"])
+            if a0 is not None and a0.get("k") == "mem" and cu.ftext(a0) == "ssl->sessionId" and c.get("fn") not in ("memcmp", "__builtin_memcmp", "memcmpct") \
+                    and not (c.get("fn") or "").startswith("psTrace"):
+                bad = (ln, c.get("fn"))
+    for b in fn.blocks:
+        for i, ln, x in cu.block_exprs(b):
+            for m in walk(x):
+                if isinstance(m, dict) and m.get("k") == "bin" and m["op"] == "=" and cu.ftext(strip(m["l"]) or {}) in ("ssl->sessionIdLen",):
+                    bad = (ln, "store to ssl->sessionIdLen")
+    f_ = None
+    if bad:
+        f_ = Finding(PROP, rid, fn.name, "TLS 1.3 ServerHello parser overwrites the client's session id",
+                     "%s:%s tls13ParseServerHello(): %s writes ssl->sessionId before the version is known: when the server chose TLS 1.2 the legacy "
+                     "parser then compares the server's session id with itself, believes the session was resumed although the server declined "
+                     "it, and the handshake dies on the Certificate message (a TLS-1.2-only client completes the same exchange)" % (
+                         fn.relfile, bad[0], bad[1]), file=fn.relfile, line=bad[0])
+    res.instance(rid, "tls13ParseServerHello: ssl->sessionId is not written", bad is None, finding=f_)
+    esc = cu.escapes(fn, (fn.entry, None), lambda x: "ssl->sessionIdLen" in cu.ftext(x) and ("!=" in cu.ftext(x) or "==" in cu.ftext(x)),
+                     is_target=lambda x: x.get("k") == "ret" and (strip(x.get("e")) or {}).get("k") == "int" and strip(x["e"])["v"] == 0)
+    f_ = None
+    if esc is not None:
+        f_ = Finding(PROP, rid, fn.name, "legacy_session_id_echo not compared",
+                     "%s:%s tls13ParseServerHello(): success is reachable (via lines %s) without comparing legacy_session_id_echo with the "
+                     "legacy_session_id that was sent (RFC 8446 4.1.3: illegal_parameter)" % (fn.relfile, esc[-1][1], [p_[1] for p_ in esc[-5:]]),
+                     file=fn.relfile, line=esc[-1][1])
+    res.instance(rid, "tls13ParseServerHello: TLS 1.3 success only behind the echo comparison", esc is None, finding=f_)
+    res.floor(rid, 2)
